@@ -2,12 +2,20 @@
 
 Theorems: lean/EmbitModel/Props/C01.lean (model digest = consensus digest, for every transaction/index/flag and
 every hash function). Tie: embit's Transaction / PSBT / PSBTView digests are compared with the Lean model
-(`sighash.*`) and, independently of the model, with the Lean consensus spec (`sighash.*.spec`)."""
+(`sighash.*`) and, independently of the model, with the Lean consensus spec (`sighash.*.spec`).
+
+Props/C01X.lean: the PSBT-level entry points. `Model.Psbt.sighash` (PSBT.sighash: dispatch + Transaction methods) and
+`Model.View.sighash*` (PSBTView's own streaming copies over vin/vout at offsets) are proved equal on every accepted
+PSBT and equal to the consensus digest under the dispatched script code. Tie: `psbt.sighash` / `view.sighash` /
+`view.sighash.{legacy,segwit,taproot}` run those model functions on the PSBT bytes embit is given (stream offsets,
+all reader modes, PSBTs with inputs of every script type) and, independently of model and of embit's dispatch, the
+consensus spec is asked for the digest of the input kind the generator built."""
 import io
 import json
 
 from core import Check, hx, run_driver
 import gen
+import gen_psbt
 
 from embit.psbt import PSBT
 from embit.psbtview import PSBTView
@@ -15,7 +23,7 @@ from embit.script import Script
 from embit.transaction import Transaction, TransactionInput, TransactionOutput
 
 PROP = "C01"
-MODS = ["EmbitModel.Props.C01"]
+MODS = ["EmbitModel.Props.C01", "EmbitModel.Props.C01X"]
 VALID = [0, 1, 2, 3, 0x80, 0x81, 0x82, 0x83]
 TAP_VALID = [0, 1, 2, 3, 0x81, 0x82, 0x83]
 INVALID = [4, 5, 0x40, 0x41, 0x84, 0xFF, 0x100, 0x181]
@@ -126,6 +134,211 @@ def explore(c, n, big):
     c.flush()
 
 
+# ---------------------------------------------------------------------------------------------------------------
+# PSBT-level entry points (Props/C01X): PSBT.sighash and PSBTView.sighash
+
+def p2pkh(h):
+    return b"\x76\xa9\x14" + h + b"\x88\xac"
+
+
+def plain_script(rng):
+    """a non-empty script that is not of p2wpkh / p2wsh shape (so it is its own script code)"""
+    while True:
+        sc = gen.gen_script(rng)
+        if len(sc) > 0 and not (len(sc) == 22 and sc[:2] == b"\x00\x14") and not (len(sc) == 34 and sc[:2] == b"\x00\x20"):
+            return sc
+
+
+KINDS = ["p2pkh", "p2sh", "p2wpkh", "p2sh-p2wpkh", "p2wsh", "p2sh-p2wsh", "p2tr", "p2wpkh+nwu", "bare"]
+
+
+def gen_signable(rng, version, kinds=None):
+    """PSBT whose every input has a utxo of a known script type. Returns (bytes, tx, [per input dict(kind, algo,
+    scriptcode, value, spk)]) - the expected algorithm and script code come from the generator, not from embit."""
+    tx = gen.gen_tx(rng, segwit=False, max_in=4, max_out=4)
+    in_maps, meta = [], []
+    for inp in tx.vin:
+        inp.script_sig = Script(b"")
+        kind = rng.choice(kinds or KINDS)
+        value = gen.pick_u64(rng)
+        h20, h32 = gen.rbytes(rng, 20), gen.rbytes(rng, 32)
+        m = []
+        if kind == "p2pkh":
+            spk, algo, sc = p2pkh(h20), "legacy", p2pkh(h20)
+        elif kind == "bare":
+            spk = plain_script(rng)
+            while Script(spk).script_type() is not None:
+                spk = plain_script(rng)
+            algo, sc = "legacy", spk
+        elif kind == "p2sh":
+            rs = plain_script(rng)
+            spk, algo, sc = b"\xa9\x14" + h20 + b"\x87", "legacy", rs
+            m.append((b"\x04", rs))
+        elif kind in ("p2wpkh", "p2wpkh+nwu"):
+            spk, algo, sc = b"\x00\x14" + h20, "segwit", p2pkh(h20)
+        elif kind == "p2sh-p2wpkh":
+            spk, algo, sc = b"\xa9\x14" + gen.rbytes(rng, 20) + b"\x87", "segwit", p2pkh(h20)
+            m.append((b"\x04", b"\x00\x14" + h20))
+        elif kind == "p2wsh":
+            ws = plain_script(rng)
+            spk, algo, sc = b"\x00\x20" + h32, "segwit", ws
+            m.append((b"\x05", ws))
+        elif kind == "p2sh-p2wsh":
+            ws = plain_script(rng)
+            spk, algo, sc = b"\xa9\x14" + h20 + b"\x87", "segwit", ws
+            m.append((b"\x04", b"\x00\x20" + h32))
+            m.append((b"\x05", ws))
+        else:
+            spk, algo, sc = b"\x51\x20" + h32, "taproot", None
+        if algo == "legacy" or kind == "p2wpkh+nwu":
+            prev = gen_psbt.gen_prev_tx(rng, 1)
+            idx = rng.randrange(len(prev.vout))
+            prev.vout[idx] = TransactionOutput(value, Script(spk))
+            inp.txid = prev.txid()
+            inp.vout = idx
+            m.append((b"\x00", prev.serialize()))
+            if kind == "p2wpkh+nwu":
+                m.append((b"\x01", prev.vout[idx].serialize()))
+        else:
+            m.append((b"\x01", TransactionOutput(value, Script(spk)).serialize()))
+        if rng.random() < 0.3:
+            m.append((b"\x03", rng.choice([0, 1, 0x83]).to_bytes(4, "little")))
+        m += gen_psbt.unknown_pairs(rng, "in")
+        rng.shuffle(m)
+        in_maps.append(m)
+        meta.append({"kind": kind, "algo": algo, "scriptcode": sc, "value": value, "spk": spk})
+    b = gen.build_psbt(tx, version, in_maps, None, [], explicit_seq=rng.random() < 0.7, rng=rng)
+    return b, tx, meta
+
+
+def extra_tokens(kw):
+    return " ".join([str(kw.get("ext_flag", 0)), "None" if kw.get("annex") is None else hx(kw["annex"]),
+                     "None" if kw.get("script") is None else hx(kw["script"].data), str(kw.get("leaf_version", 0xC0)),
+                     "None" if kw.get("codeseparator_pos") is None else str(kw["codeseparator_pos"])])
+
+
+def open_view(buf, off, vc):
+    s = io.BytesIO(buf)
+    s.seek(off)
+    return PSBTView.view(s, compress=vc)
+
+
+def check_entry_points(c, b, toks, nin, meta, flags, label, spec_version_toks=None):
+    """PSBT.sighash / PSBTView.sighash on the bytes `b` for every input (and one index past the end)"""
+    rng = c.rng
+    pre = gen.rbytes(rng, rng.choice([0, 0, 1, 7, 300]))
+    post = gen.rbytes(rng, rng.choice([0, 0, 3]))
+    buf, off = pre + b + post, len(pre)
+    leaf = gen.gen_script(rng)
+    annex = b"\x50" + gen.rbytes(rng, rng.choice([0, 1, 40]))
+    kws = [{}, {"ext_flag": 1, "script": Script(leaf), "leaf_version": rng.choice([0xC0, 0xC0, 0xC2])},
+           {"annex": annex}, {"ext_flag": 1, "script": Script(leaf), "annex": annex, "codeseparator_pos": rng.choice([0, 5, 0xFFFF])}]
+    taproot_here = meta is not None and any(m["algo"] == "taproot" for m in meta)
+    for vc in ([0, 0, 1, 2] if rng.random() < 0.5 else [0]):
+        p = None
+        try:
+            p = PSBT.parse(b, compress=vc)
+        except Exception:
+            pass
+        for i in range(nin + 1):
+            mi = meta[i] if (meta is not None and i < nin) else None
+            for f in flags:
+                for kw in (kws if (mi is None or mi["algo"] == "taproot") and rng.random() < 0.5 else kws[:1]):
+                    xt = extra_tokens(kw)
+                    info = {"entry": label, "mode": vc, "idx": i, "flag": f, "kind": mi and mi["kind"], "kwargs": xt,
+                            "psbt": hx(b)[:6000], "offset": off}
+                    rp = call(lambda: p.sighash(i, f, **kw)) if p is not None else "none"
+                    rv = call(lambda: open_view(buf, off, vc).sighash(i, f, **kw))
+                    c.count(("ep", label, vc, i, f, xt, b), nontrivial=True)
+                    valid = mi is not None and p is not None and f in (TAP_VALID if mi["algo"] == "taproot" else VALID)
+                    c.expect("psbt.sighash %d %d %d %s %s" % (vc, i, f, xt, hx(b)), rp, dict(info, entry="psbt:" + label),
+                             proven=valid)
+                    c.expect("view.sighash %d %d %d %d %s %s" % (off, vc, i, f, xt, hx(buf)), rv,
+                             dict(info, entry="view:" + label), proven=valid)
+                    c.tally("ep:%s:%s" % ("ok" if rp != "none" else "none", mi["algo"] if mi else "-"))
+                    # the property on embit itself: both entry points give the same answer
+                    if rp != rv:
+                        c.fail("PSBTView.sighash differs from PSBT.sighash (input %d, flag %#x, mode %d)" % (i, f, vc),
+                               dict(info, op="entry.points", psbt_digest=rp, view_digest=rv))
+                    # ... and it is the consensus digest for the kind of input the generator built
+                    if valid and toks is not None:
+                        if mi["algo"] == "legacy":
+                            line = "sighash.legacy.spec %s %d %s %d" % (toks, i, hx(mi["scriptcode"]), f)
+                        elif mi["algo"] == "segwit":
+                            line = "sighash.segwit.spec %s %d %s %d %d" % (toks, i, hx(mi["scriptcode"]), mi["value"], f)
+                        else:
+                            ext = kw.get("ext_flag", 0)
+                            if ext != (1 if kw.get("script") is not None else 0):
+                                continue
+                            line = "sighash.taproot.spec " + tap_tokens(
+                                toks, i, [m["spk"] for m in meta], [m["value"] for m in meta], f, ext, kw.get("annex"),
+                                None if kw.get("script") is None else kw["script"].data, kw.get("leaf_version", 0xC0),
+                                kw.get("codeseparator_pos"))
+                        c.expect(line, rp, dict(info, entry="psbt:" + label, oracle="spec"), proven=True)
+                        c.expect(line, rv, dict(info, entry="view:" + label, oracle="spec"), proven=True)
+
+
+def check_view_algos(c, tx, b, label):
+    """the view's own sighash_legacy / _segwit / _taproot on PSBT bytes vs the Lean model of exactly that code"""
+    rng = c.rng
+    toks = gen.tx_tokens(tx)
+    nin = len(tx.vin)
+    pre = gen.rbytes(rng, rng.choice([0, 1, 64]))
+    buf, off = pre + b, len(pre)
+    sc = gen.gen_script(rng)
+    value = gen.pick_u64(rng)
+    spks = [gen.rbytes(rng, rng.choice([22, 34, 25, 0])) for _ in range(nin)]
+    values = [gen.pick_u64(rng) for _ in range(nin)]
+    v = open_view(buf, off, 0)
+    for i in sorted({0, nin - 1, nin, rng.randrange(nin)}):
+        for f in VALID + [rng.choice(INVALID)]:
+            valid = f in VALID and i < nin
+            info = {"entry": "view-algo:" + label, "idx": i, "flag": f, "psbt": hx(b)[:6000], "offset": off}
+            c.count(("va", label, i, f, b, sc), nontrivial=True)
+            r = call(lambda: v.sighash_legacy(i, Script(sc), f))
+            c.expect("view.sighash.legacy %d %d %s %d %s" % (off, i, hx(sc), f, hx(buf)), r, dict(info, algo="legacy"), proven=valid)
+            r = call(lambda: v.sighash_segwit(i, Script(sc), value, f))
+            c.expect("view.sighash.segwit %d %d %s %d %d %s" % (off, i, hx(sc), value, f, hx(buf)), r, dict(info, algo="segwit"),
+                     proven=valid)
+            leaf = gen.gen_script(rng)
+            kw = rng.choice([{}, {"ext_flag": 1, "script": Script(leaf)}, {"annex": b"\x50\x01"}])
+            r = call(lambda: v.sighash_taproot(i, [Script(s) for s in spks], values, f, **kw))
+            lst = " ".join([str(len(spks))] + [hx(s) for s in spks] + [str(len(values))] + [str(x) for x in values])
+            c.expect("view.sighash.taproot %d %d %s %d %s %s" % (off, i, lst, f, extra_tokens(kw), hx(buf)), r,
+                     dict(info, algo="taproot"), proven=(f in TAP_VALID and i < nin))
+
+
+def strip_v2_txversion(b):
+    """a PSBTv2 without PSBT_GLOBAL_TX_VERSION (both entry points then sign nVersion 2)"""
+    pair = gen.kv(b"\x02", b[8:12])
+    assert b[5:5 + len(pair)] == pair
+    return b[:5] + b[5 + len(pair):]
+
+
+def explore_entry_points(c, n):
+    rng = c.rng
+    for k in range(n):
+        version = rng.choice([0, 2])
+        b, tx, meta = gen_signable(rng, version, kinds=(["p2tr", "p2tr", "p2wpkh"] if k % 4 == 3 else None))
+        toks = gen.tx_tokens(tx)
+        flags = VALID + [rng.choice(INVALID)] if len(tx.vin) <= 2 else rng.sample(VALID, 3)
+        c.tally("ep-psbt:v%d/in%d" % (version, len(tx.vin)))
+        check_entry_points(c, b, toks, len(tx.vin), meta, flags, "signable-v%d" % version)
+        check_view_algos(c, tx, b, "v%d" % version)
+        if version == 2 and k % 3 == 0:
+            # finding C01X-D46 (fixed): no tx version field -> both entry points must use nVersion 2
+            t2 = Transaction(2, tx.vin, tx.vout, tx.locktime)
+            c.tally("ep-psbt:v2-without-txversion")
+            check_entry_points(c, strip_v2_txversion(b), gen.tx_tokens(t2), len(tx.vin), meta, flags[:3], "v2-no-txversion")
+        # arbitrary field combinations (random utxo kinds, scripts that are not what the utxo commits to, missing
+        # utxos): only the model comparison and "both entry points agree"
+        g = gen_psbt.gen_psbt(rng)
+        check_entry_points(c, g["bytes"], None, len(g["tx"].vin), None, rng.sample(VALID, 2), "random-v%d" % g["version"])
+        if k % 5 == 4:
+            c.flush()
+    c.flush()
+
+
 def classify_none(rec):
     return False
 
@@ -136,12 +349,16 @@ def run(tier, seed):
               "x every input index incl. >= number of outputs and >= number of inputs x the 8 valid flags (+ invalid ones) "
               "x {legacy, BIP143, BIP341 key path / script path / annex / codeseparator} x entry points {Transaction, "
               "PSBT v0, PSBT v2, PSBTView v0, PSBTView v2 at a stream offset}; distinct by content, non-trivial when "
-              ">1 input or flag not in {DEFAULT, ALL} or taproot")
+              ">1 input or flag not in {DEFAULT, ALL} or taproot. Entry points: seeded PSBTs (v0 / v2 / v2 without tx version) "
+              "whose inputs are p2pkh, bare, p2sh, p2wpkh, p2sh-p2wpkh, p2wsh, p2sh-p2wsh, p2tr (with non-witness and / or "
+              "witness utxo), plus PSBTs with arbitrary field combinations; PSBT.sighash and PSBTView.sighash (stream "
+              "offsets, reader modes 0/1/2, taproot kwargs) x every input x flags")
     c.assumptions = ["taproot hash type 0x80 has no BIP341 digest; it is compared with the model only",
                      "scriptCode is an argument (OP_CODESEPARATOR / FindAndDelete are the caller's, as in embit)"]
     c.build_and_audit()
     explore(c, 30 if tier == "quick" else 600, big=(tier != "quick"))
-    return c.finish(search=lambda cc: explore(cc, 100, False))
+    explore_entry_points(c, 16 if tier == "quick" else 300)
+    return c.finish(search=lambda cc: (explore(cc, 100, False), explore_entry_points(cc, 40)))
 
 
 def replay(path):
